@@ -206,6 +206,8 @@ def SLOPE(*yx):
     # form cancels catastrophically when the values are large compared with their spread
     # ... nor does the deviation form help when the means are rounded to doubles first (and whole
     # numbers beyond 2^53 with them): in exact arithmetic throughout, rounded once at the end
+    if not all(isinstance(v, number_types) for v in xs + ys):
+        return error.VALUE  # (Fraction would read text: "1e999999999" is a number of a billion digits)
     xs = [Fraction(x) for x in xs]
     ys = [Fraction(y) for y in ys]
     mean_x = sum(xs) / len(xs)
